@@ -1,0 +1,61 @@
+//go:build verif
+
+package verifhook
+
+import "sync/atomic"
+
+// Enabled reports whether the instrumentation is compiled in.
+const Enabled = true
+
+// Hooks is the set of callbacks the harness installs. Nil members are no-ops.
+type Hooks struct {
+	Yield    func(site string)
+	Spin     func(site string)
+	Note     func(event string)
+	Fault    func(site string) error
+	FSEvent  func(kind, path string, b []byte)
+	WrapFile func(path string, f File) File
+}
+
+var installed atomic.Pointer[Hooks]
+
+// Install replaces the active handler set (nil removes it).
+func Install(h *Hooks) { installed.Store(h) }
+
+func Yield(site string) {
+	if h := installed.Load(); h != nil && h.Yield != nil {
+		h.Yield(site)
+	}
+}
+
+func Spin(site string) {
+	if h := installed.Load(); h != nil && h.Spin != nil {
+		h.Spin(site)
+	}
+}
+
+func Note(event string) {
+	if h := installed.Load(); h != nil && h.Note != nil {
+		h.Note(event)
+	}
+}
+
+func Fault(site string) error {
+	if h := installed.Load(); h != nil && h.Fault != nil {
+		return h.Fault(site)
+	}
+	return nil
+}
+
+func FSEvent(kind, path string, b []byte) {
+	if h := installed.Load(); h != nil && h.FSEvent != nil {
+		h.FSEvent(kind, path, b)
+	}
+}
+
+func WrapFile(path string, f File) File {
+	if h := installed.Load(); h != nil && h.WrapFile != nil {
+		return h.WrapFile(path, f)
+	}
+	return f
+}
